@@ -75,6 +75,13 @@ def parse_ops(tt):
             ops.append(dict(kind=k, store=s, id=i, fv=fv, sv=sv, checker=chk))
         elif k == "D":
             ops.append(dict(kind=k, store=nx(), id=nx()))
+        elif k == "DW":
+            # DeleteWhere (Store/XOps.v XDeleteWhere): DW <store> T | DW <store> EQ <field> <valhex>
+            s, flt = nx(), nx()
+            if flt == "EQ":
+                ops.append(dict(kind=k, store=s, field=nx(), val=nx()))
+            else:
+                ops.append(dict(kind=k, store=s, field=None, val=None))
         elif k in ("AL", "RL"):
             s, i, lf = nx(), nx(), nx()
             ts = [nx() for _ in range(int(nx()))]
